@@ -93,6 +93,9 @@ fn modes() -> Vec<ModeSpec> {
         ModeSpec { name: "default-no-heading", args: vec!["--no-heading", "-n"], split: Split::PathPrefix },
         ModeSpec { name: "heading", args: vec!["--heading", "-n"], split: Split::Heading },
         ModeSpec { name: "context", args: vec!["--no-heading", "-n", "-C1"], split: Split::PathPrefix },
+        ModeSpec { name: "context-crlf", args: vec!["--no-heading", "-n", "-C1", "--crlf"], split: Split::PathPrefix },
+        ModeSpec { name: "context-stats", args: vec!["--no-heading", "-n", "-C1", "--stats"], split: Split::PathPrefix },
+        ModeSpec { name: "heading-stats", args: vec!["--heading", "-n", "--stats"], split: Split::Heading },
         ModeSpec { name: "count", args: vec!["-c"], split: Split::Lines },
         ModeSpec { name: "files-with-matches", args: vec!["-l"], split: Split::Lines },
         ModeSpec { name: "files-without-match", args: vec!["--files-without-match"], split: Split::Lines },
@@ -119,9 +122,27 @@ fn strip_times(v: &mut Value) {
 /// Split stdout into per-file blocks; Err if a file's output is not
 /// contiguous or the framing is broken.
 fn blocks(out: &[u8], split: Split) -> Result<(Vec<String>, Vec<String>), String> {
-    let text = String::from_utf8_lossy(out).to_string();
+    let mut text = String::from_utf8_lossy(out).to_string();
     let mut blocks: Vec<String> = vec![];
     let mut extras: Vec<String> = vec![];
+    // a --stats trailer (an empty line, then eight lines, the first of which
+    // ends in " matches") is not a search result: it is compared apart from
+    // the blocks (without its timings and "bytes printed", which counts the
+    // separators only when the printer itself writes them), and what stands
+    // before it is framed like any other output
+    if split != Split::Json {
+        let ls: Vec<&str> = text.lines().collect();
+        if ls.len() >= 9 && ls[ls.len() - 8].ends_with(" matches") && ls[ls.len() - 9].is_empty() && ls[ls.len() - 1].ends_with(" seconds") {
+            let keep: Vec<&str> = ls[ls.len() - 8..].iter().copied().filter(|l| !l.contains(" seconds") && !l.ends_with(" bytes printed")).collect();
+            extras.push(format!("STATS {}", keep.join(" | ")));
+            let tail: usize = ls[ls.len() - 9..].iter().map(|l| l.len() + 1).sum();
+            let cut = text.len() - tail;
+            if split == Split::PathPrefix && (text[..cut].ends_with("\n--\n") || text[..cut] == *"--\n") {
+                return Err("a file separator after the last block (before the statistics)".into());
+            }
+            text.truncate(cut);
+        }
+    }
     match split {
         Split::None => {}
         Split::Lines => {
@@ -132,9 +153,13 @@ fn blocks(out: &[u8], split: Split) -> Result<(Vec<String>, Vec<String>), String
         Split::PathPrefix => {
             let mut cur: Option<(String, String)> = None;
             let mut seen: HashSet<String> = HashSet::new();
-            for l in text.lines() {
+            for raw in text.split_inclusive('\n') {
+                let raw = raw.strip_suffix('\n').unwrap_or(raw);
+                let l = raw.strip_suffix('\r').unwrap_or(raw);
                 if l == "--" {
-                    extras.push(l.to_string());
+                    // (kept with its carriage return, if any: the separator's
+                    // own terminator is part of the output)
+                    extras.push(raw.to_string());
                     continue;
                 }
                 // path is everything up to the first ':' or '-' that is
@@ -418,6 +443,7 @@ struct Acc {
     steps: u64,
     orders: HashSet<u64>,
     configs: u64,
+    known: u64,
     disc: Vec<(String, Value)>,
 }
 
@@ -524,6 +550,7 @@ pub fn run(args: &Args) -> ! {
                 acc.orders.insert(hash64(&o.stdout));
                 // oracle
                 let mut why = None;
+                let mut known = false;
                 if o.status != reference.status {
                     why = Some(format!("exit status {} vs {} single-threaded", o.status, reference.status));
                 } else if sorted {
@@ -550,13 +577,36 @@ pub fn run(args: &Args) -> ! {
                             if b != rb {
                                 why = Some("the per-file blocks are not a permutation of the single-threaded blocks".to_string());
                             } else if x != rx && mode.split != Split::Json && !t.failing_pre {
+                                // counterfactual switch of known finding
+                                // `parallel-file-separator-ignores-line-terminator`:
+                                // the separators BETWEEN files (one less than
+                                // there are blocks) end in a bare \n
+                                let mut cf = rx.clone();
+                                let mut n = b.len().saturating_sub(1);
+                                for e in cf.iter_mut() {
+                                    if n > 0 && e == "--\r" {
+                                        *e = "--".to_string();
+                                        n -= 1;
+                                    }
+                                }
+                                cf.sort();
+                                if mode.name == "context-crlf" && n == 0 && cf == x {
+                                    known = true;
+                                }
                                 why = Some("separators differ from the single-threaded output".to_string());
                             }
                         }
                     }
                 }
                 if let Some(w) = why {
-                    report(&mut acc, w, &node, &o);
+                    if known {
+                        acc.known += 1;
+                        if acc.known == 1 {
+                            report(&mut acc, format!("KNOWN {}", w), &node, &o);
+                        }
+                    } else {
+                        report(&mut acc, w, &node, &o);
+                    }
                 }
                 stack.extend(sched::children(&node, trace, pbound, 0));
             }
@@ -571,7 +621,8 @@ pub fn run(args: &Args) -> ! {
     );
     let total = total.into_inner().unwrap();
     for (k, v) in total.disc.iter() {
-        verdict.discrepancy(None, k, v.clone());
+        let f = if k.contains("| KNOWN ") { Some("parallel-file-separator-ignores-line-terminator") } else { None };
+        verdict.discrepancy(f, k, v.clone());
     }
     if total.orders.len() < 10 {
         machinery_error("C08: the explored schedules produced fewer than 10 distinct outputs (vacuous)");
